@@ -1,11 +1,14 @@
 package scn
 
 import (
+	"encoding/json"
 	"errors"
 	"fmt"
 	"net"
 	"sort"
 	"strings"
+
+	"github.com/codelaboratoryltd/bng/pkg/allocator"
 )
 
 // Oracles of the distributed variants of C12 (see DESIGN §5 C12).
@@ -19,17 +22,26 @@ func (w *c12world) modeName() string {
 
 func (w *c12world) installOracleHooks() {
 	prefix := "/allocation/" + c12PoolID + "/"
-	w.st.preGet = func(wt *c12watcher, ev *c12event) string {
+	w.st.preGet = func(wt *c12watcher, ev *c12event) {
+		ev.before, ev.holder, ev.holderRec = "", "", ""
 		if wt.h.da == nil || ev.from == wt.h.slot.idx {
-			return ""
+			return
 		}
-		p, ok := wt.h.da.Get(strings.TrimPrefix(ev.key, prefix))
-		if !ok || p == nil {
-			return ""
+		if p, ok := wt.h.da.Get(strings.TrimPrefix(ev.key, prefix)); ok && p != nil {
+			ev.before = p.String()
 		}
-		return p.String()
+		ev.nodeEpoch = wt.h.da.GetCurrentEpoch()
+		if ev.deleted {
+			return
+		}
+		if _, pn, err := net.ParseCIDR(c12recPrefix(ev.val)); err == nil {
+			ev.holder, _ = wt.h.da.GetByPrefix(pn)
+			if ev.holder != "" {
+				ev.holderRec = w.record(ev.holder)
+			}
+		}
 	}
-	w.st.onDeliver = func(wt *c12watcher, ev *c12event, before string) {
+	w.st.onDeliver = func(wt *c12watcher, ev *c12event) {
 		sl := wt.h.slot
 		if sl.h != wt.h {
 			return
@@ -40,8 +52,8 @@ func (w *c12world) installOracleHooks() {
 			sl.touch[sub] = &c12touch{}
 			return
 		}
-		sl.touch[sub] = &c12touch{event: true, deleted: ev.deleted, prefix: c12recPrefix(ev.val), before: before,
-			seq: ev.seq, ticks: sl.ticks, from: ev.from}
+		sl.touch[sub] = &c12touch{event: true, deleted: ev.deleted, prefix: c12recPrefix(ev.val), before: ev.before,
+			holder: ev.holder, holderRec: ev.holderRec, nodeEpoch: ev.nodeEpoch, recEpoch: c12recEpoch(ev.val), seq: ev.seq, ticks: sl.ticks, from: ev.from}
 	}
 	w.st.onTick = func(h *c12handle) { h.slot.ticks++ }
 }
@@ -144,20 +156,21 @@ func (w *c12world) checkWatch() {
 					"node n%d received delete(%s) from n%d (seq %d) but still answers %q for it", sl.idx, sub, t.from, t.seq, ans)
 				continue
 			}
-			// who holds the announced prefix on this node?
-			holder := ""
-			if _, pn, err := net.ParseCIDR(want); err == nil {
-				holder, _ = sl.da.GetByPrefix(pn)
+			if w.st.conflicted[want] {
+				// two store records claimed the prefix: a multi-writer conflict, not C12's subject
+				c.S.Probe("watch_skipped_store_conflict")
+				continue
 			}
-			if holder != "" && holder != sub {
-				if w.record(holder) == want {
-					// two store records claim the prefix: a multi-writer conflict, not C12's subject
+			// who held the announced prefix on this node when the notification arrived?
+			if !w.lease && t.holder != "" && t.holder != sub {
+				if t.holderRec == want {
+					// two store records claimed the prefix: a multi-writer conflict, not C12's subject
 					c.S.Probe("watch_skipped_store_conflict")
 					continue
 				}
 				c.Fail("watch-applied", "watch/"+w.modeName()+"/put-rejected-stale-holder",
-					"node n%d received put(%s -> %s) from n%d (seq %d) but answers %q: the prefix is still held locally by %s, which has no such record in the store (store says %q)",
-					sl.idx, sub, want, t.from, t.seq, ans, holder, w.record(holder))
+					"node n%d received put(%s -> %s) from n%d (seq %d) but answers %q: on arrival the prefix was held locally by %s, whose store record was %q",
+					sl.idx, sub, want, t.from, t.seq, ans, t.holder, t.holderRec)
 				continue
 			}
 			detail := "not-applied"
@@ -166,6 +179,13 @@ func (w *c12world) checkWatch() {
 				detail = "kept-previous-address"
 			case ans != "":
 				detail = "applied-other-address"
+			case w.lease && t.recEpoch+2 < t.nodeEpoch:
+				// classification only: the record's epoch (the writer's private counter) looks expired to the receiver
+				detail = "not-applied/epoch-skew"
+			case w.lease:
+				if st := sl.da.Stats(); st.Allocated >= st.Total {
+					detail = "not-applied/pool-reads-full"
+				}
 			}
 			c.Fail("watch-applied", "watch/"+w.modeName()+"/put-"+detail,
 				"node n%d received put(%s -> %s) from n%d (seq %d); it answered %q before the notification and answers %q after it (store record: %q)",
@@ -246,6 +266,14 @@ func (w *c12world) restartAndCheck(sl *c12slot) {
 		}
 		seen[a] = sub
 	}
+}
+
+func c12recEpoch(val []byte) uint64 {
+	var a allocator.DistributedAllocation
+	if len(val) == 0 || json.Unmarshal(val, &a) != nil {
+		return 0
+	}
+	return a.Epoch
 }
 
 func c12fmtMap(m map[string]string) string {
